@@ -288,6 +288,43 @@ def judge_entrypoints(ctx, rng):
                             ctx.violation('C12|entrypoint-helper-retargeted-by-decode-override', 'after decode(entrypoint=%r): %r' % (oname, e), case)
 
 
+def judge_spellings(ctx, rng):
+    """Python spellings of the same value that from_python_object accepts (bytes: bytes / hex text / 0x-prefixed hex text;
+    timestamp: int / RFC 3339 text) denote the same value, bare and inside records and maps."""
+    from rv.hooks import extract as X_
+    samples = [b'', b'\x00', b'\x00\xff', b'\x0a', b'\x05\x00\x00', b'\xff\x00', b'\x00\x00\x01', bytes(range(7)), b'\x10', b'0x']
+    samples += [bytes(rng.getrandbits(8) for _ in range(rng.choice([1, 2, 5, 32]))) for _ in range(6)]
+    shapes_ = [('bare', T.BYTES, lambda x: x, lambda x: x), ('record', T.pair(T.BYTES, T.NAT), lambda x: (x, 7), lambda x: (x, 7)),
+               ('map-value', T.map_(T.NAT, T.BYTES), lambda x: {1: x}, lambda x: [(1, x)]), ('option', T.option(T.BYTES), lambda x: x, lambda x: ('Some', x))]
+    for b in samples:
+        for name, t, mkpy, mkmodel in shapes_:
+            cls = D.mk_type(t)
+            for how, spelled in (('bytes', b), ('hex', b.hex()), ('0x-hex', '0x' + b.hex())):
+                if how == 'hex' and not b:
+                    continue
+                ctx.count('python_spellings')
+                ctx.case(('spelling', name, b, how), nontrivial=True)
+                case = {'spelling': how, 'shape': name, 'bytes': b.hex()}
+                try:
+                    got = X_.value_of(cls.from_python_object(mkpy(spelled)))
+                except Exception:
+                    ctx.count('python_spellings_refused')
+                    continue
+                if got != mkmodel(b):
+                    ctx.violation('C12|python-spelling-denotes-another-value|bytes|' + how, '%r read as %r, the value is %r' % (spelled, got, mkmodel(b)), case)
+    for ts in (0, 1, 86399, 1654703820, 253402300799):
+        cls = D.mk_type(T.TIMESTAMP)
+        for how, spelled in (('int', ts), ('rfc3339', P.ts_to_rfc3339(ts))):
+            ctx.count('python_spellings')
+            try:
+                got = X_.value_of(cls.from_python_object(spelled))
+            except Exception:
+                ctx.count('python_spellings_refused')
+                continue
+            if got != ts:
+                ctx.violation('C12|python-spelling-denotes-another-value|timestamp|' + how, '%r read as %r' % (spelled, got), {'spelling': how, 'timestamp': ts})
+
+
 def judge_big_map_ids(ctx):
     """Storages as a node returns them hold big-map ids (0 is the first id a chain allocates): decode / encode must keep the id."""
     from pytezos.context.impl import ExecutionContext
@@ -325,6 +362,7 @@ def run(ctx):
     judge_entrypoints(ctx, rng)
     if ctx.mine(0):
         judge_big_map_ids(ctx)
+        judge_spellings(ctx, rng)
     ctx.require('entrypoint_roundtrips', 20)
     n = ctx.pick(3000, 150000) // ctx.nshards
     ctx.rule = ('storage/parameter types depth<=%d with random field/type annotations on pair and union members (named, unnamed, '
@@ -352,6 +390,8 @@ def run(ctx):
 
 
 def replay(ctx, case):
+    if 'spelling' in case:
+        return judge_spellings(ctx, ctx.rng)
     if 'big_map_id' in case:
         return judge_big_map_ids(ctx)
     if 'parameter' in case:
